@@ -201,7 +201,8 @@ def gibbs_cases(draw, tier="quick"):
             # given for some blocks only (default 1)
             "dict_order": draw(st.permutations(names)), "nsteps_given": {n: draw(st.sampled_from([True, True, False])) for n in names},
             # the step-count argument left out altogether (documented default: one step per block)
-            "nsteps_omitted": draw(st.sampled_from([False, False, False, True]))}
+            "nsteps_omitted": draw(st.sampled_from([False, False, False, True])),
+            "tiny_moves": draw(st.sampled_from([False, False, False, True]))}
 
 
 def conditioned_joint(spec):
@@ -302,12 +303,15 @@ def run_hybrid(c, rec):
             kind = assign[b]
             cls = spies[kind]
             kw = {"initial_point": init[b].copy()}
+            # (tiny_moves: proposals that change a block by a relative 1e-6 - a chain that has nearly stopped moving still has to be
+            # conditioned on the values the other blocks have now)
+            tm = 1e-5 if c.get("tiny_moves") else 1.0
             if kind in ("MH", "CWMH"):
-                kw["scale"] = 0.2
+                kw["scale"] = 0.2 * tm
             if kind == "MALA":
-                kw["scale"] = 0.01
+                kw["scale"] = 0.01 * tm
             if kind == "PCN":
-                kw["scale"] = 0.3
+                kw["scale"] = 0.3 * tm
             s = cls(**kw)
             s.spy_name = b
             strat[b] = s
